@@ -192,6 +192,7 @@ pub struct Pipe {
     pub rerr: bool,
     pub rwaker: Option<Waker>,
     pub scribble: bool,
+    pub coalesce: bool,
     pub inbound_len: usize,
     pub delivered: usize,
     pub consumed: usize,
@@ -209,7 +210,7 @@ pub struct Pipe {
 }
 
 impl Pipe {
-    fn new(conn: usize, shared: Rc<Shared>, scribble: bool) -> Self {
+    fn new(conn: usize, shared: Rc<Shared>, scribble: bool, coalesce: bool) -> Self {
         Pipe {
             conn,
             shared,
@@ -220,6 +221,7 @@ impl Pipe {
             rerr: false,
             rwaker: None,
             scribble,
+            coalesce,
             inbound_len: 0,
             delivered: 0,
             consumed: 0,
@@ -273,12 +275,24 @@ impl AsyncRead for SimReader {
             return Poll::Ready(Ok(0));
         }
         if let Some(front) = p.avail.front_mut() {
-            let n = front.len().min(buf.len());
+            let mut n = front.len().min(buf.len());
             buf[..n].copy_from_slice(&front[..n]);
             if n == front.len() {
                 p.avail.pop_front();
             } else {
                 front.drain(..n);
+            }
+            // a socket hands over everything that has arrived, not one segment per read
+            while p.coalesce && n < buf.len() {
+                let Some(next) = p.avail.front_mut() else { break };
+                let m = next.len().min(buf.len() - n);
+                buf[n..n + m].copy_from_slice(&next[..m]);
+                if m == next.len() {
+                    p.avail.pop_front();
+                } else {
+                    next.drain(..m);
+                }
+                n += m;
             }
             if p.scribble {
                 // bounded: a packet announcing a huge remaining length makes the library ask for
@@ -804,7 +818,7 @@ impl World {
 
     fn new_connection(&mut self) -> (usize, SimReader, SimWriter) {
         let conn = self.pipes.len();
-        let pipe = Rc::new(RefCell::new(Pipe::new(conn, self.shared.clone(), self.cfg.scribble)));
+        let pipe = Rc::new(RefCell::new(Pipe::new(conn, self.shared.clone(), self.cfg.scribble, self.cfg.coalesce)));
         self.pipes.push(pipe.clone());
         self.parse_pos.push(0);
         self.wire_error.push(None);
